@@ -7,7 +7,7 @@ from __future__ import annotations
 
 import numpy as np
 
-from harness.common import Violation, run_main, setup_jax
+from harness.common import Violation, release_jit, run_main, setup_jax
 
 jax = setup_jax(x64=True)
 import equinox as eqx  # noqa: E402
@@ -69,6 +69,7 @@ def real_vs_real(ck, rng, n):
                                                case={**ck.current_case, "env_index": i, "C": C, "L": L}))
                 break
         ck.case_seen(("off", idx, N, T)); ck.count("offpolicy_vmapped_vs_singles")
+        release_jit(idx, 10)
     ck.current_case = None
 
 
@@ -201,6 +202,7 @@ def body(ck):
     for i in range(15 if quick else 250):
         lit, j, meta = gen_rollout_case(ck, ck.rng, 700_000 + i, force_vec=True)
         cases.append(lit); cj.append(j)
+        release_jit(i, 25)
     ck.current_case = None
     res = ck.run_coq_cases("C04Check", cases, shard=10, preamble=PREAMBLE)
     ck.classify(res, cj, sig_of=lambda i: "C12/onpolicy/model", relation="OnPolicy.collect per environment (C12_onpolicy_no_mixing) vs vmapped collect_rollout",
